@@ -571,9 +571,9 @@ func init() {
 			x.paths++
 			st.assume(ok, "valid bech32")
 			st.assume(And(Eq(app(SString, toFn, addr), s), Gt(StrLen(addr), IntLit(0))), "bech32 round trip")
-			k(st, &TupleV{Vs: []Val{addr, &ErrV{IsNil: TTrue}}})
+			x.tryPath(func() { k(st, &TupleV{Vs: []Val{addr, &ErrV{IsNil: TTrue}}}) })
 			bad.assume(Not(ok), "invalid bech32")
-			k(bad, &TupleV{Vs: []Val{T{S: `""`, So: SString}, &ErrV{IsNil: TFalse}}})
+			x.tryPath(func() { k(bad, &TupleV{Vs: []Val{T{S: `""`, So: SString}, &ErrV{IsNil: TFalse}}}) })
 		}
 	}
 	libModels[sdkT+"AccAddressFromBech32"] = bechFork("uf_bech32ok", "uf_accFromBech32", "uf_bech32acc")
